@@ -145,8 +145,13 @@ def check_decoder_layout(ctx):
                 store[("SPEC", ap + F("ev_arg", "type"))] = INT(tyv[ty])
                 store[("SPEC", ap + F("ev_arg", "offset"))] = INT(off)
                 store[("SPEC", ap + F("ev_arg", "size"))] = INT(sz)
-            exc = absint.Explorer(prog, effects=eff, loop_bound=len(e.parsed["args"]) + 3,
-                                  summaries={"memchr": lambda ex_, st, a, f, e_: [(PTR("NULPOS"), {})]})
+            from rules.strutil import byte_store, s_memchr
+            data = bytearray(b"\x41" * have)
+            if has_str:
+                data[-1] = 0
+            store.update(byte_store("PL", bytes(data)))
+            exc = absint.Explorer(prog, effects=eff, loop_bound=max(len(e.parsed["args"]), have) + 4,
+                                  summaries={"memchr": s_memchr})
             outs = [o for o in exc.run(chk, [PTR("SPEC"), PTR("EV")], store) if o.kind == "ret"]
             ctx.check(bool(outs) and all(o.ret == INT(0) for o in outs), "R18.4",
                       "%s:%s:declared-shape-decodable" % (m.name, e.mcv), chk.loc(),
